@@ -35,3 +35,9 @@ run h6 3 C15
 run h6 4 C09,C11
 run h6 5 C10
 run h6 6 C13,C05,C04
+run h5 1 C08,C01,C18
+run h5 2 C01,C15
+run h5 3 C03,C18,C07
+run h5 4 C08
+run h5 5 C01,C15
+run h5 6 C15,C07,C08
